@@ -133,6 +133,11 @@ theorem tickDispatchers_quiet {S} (b : Bool) (caps : List (List Nat)) : ∀ (is 
 def KQ (Q : Kern → Prop) (v : V) : Prop :=
   (∀ k ∈ v.drvIn, Q k) ∧ ∀ i k, (v.ds i).kern = some k → Q k
 
+/-- every dispatching kernel satisfies `Q` (nothing is said about the launch queue) -/
+def KD (Q : Kern → Prop) (v : V) : Prop := ∀ i k, (v.ds i).kern = some k → Q k
+
+theorem KQ.kd {Q : Kern → Prop} {v : V} (h : KQ Q v) : KD Q v := h.2
+
 theorem KQ_step {Q : Kern → Prop} {v v' : V} (h : KQ Q v) (s : VStep v v') : KQ Q v' := by
   obtain ⟨h1, h2⟩ := h
   cases s with
